@@ -107,7 +107,7 @@ def build_c(q):
     must([CLANGXX] + flags + ['-S', '-emit-llvm', harness, '-o', 'h.ll'], 'clang++ harness', cwd=wd)
     lls = ['h.ll']
     tudir = os.path.join(WORK, q.prop, '_tu'); os.makedirs(tudir, exist_ok=True)
-    for tu in ob.get('tus', []):
+    for tu in [os.path.join(ENGINE, 'support', 'libstdcxx_inst.cpp')] + list(ob.get('tus', [])):
         src = repo_path(tu)
         key = hashlib.sha256((src + ' '.join(BASE_FLAGS + list(ob.get('cxxflags', []))) + sha(src)).encode()).hexdigest()[:16]
         out = os.path.join(tudir, os.path.basename(src) + '.' + key + '.ll')
@@ -125,10 +125,12 @@ def build_c(q):
         shutil.copy(os.path.join(wd, 'h.ll'), os.path.join(wd, 'all.ll'))
     entry = ob['entry']
     stubs = list(ob.get('stubs', []))
-    api = [entry] + [s.rsplit('=', 1)[1] for s in stubs] + list(ob.get('keep', []))
+    api = [entry, 'vf_virtual_stub', 'vf_virtual_noop'] + [s.rsplit('=', 1)[1] for s in stubs] + list(ob.get('keep', []))
     prep = ['python3', os.path.join(ENGINE, 'prep_ir.py'), 'all.ll', 'prep.ll']
     for n in ob.get('noinline', []): prep += ['--noinline', n]
     for s in stubs: prep += ['--stub', s]
+    for k in ob.get('stub_virtual', []): prep += ['--stub-virtual', k]
+    for k in ob.get('noop_virtual', []): prep += ['--noop-virtual', k]
     r = run(prep, cwd=wd, timeout=300)
     if r['rc'] != 0:
         raise ToolError('prep_ir: ' + r['err'][-800:])
@@ -273,8 +275,10 @@ def write_values(path, vals):
     with open(path, 'w') as f:
         for _, v in vals: f.write('%x\n' % v)
 
-def run_native(exe, valfile=None, seed=None, timeout=20):
+def run_native(exe, valfile=None, seed=None, timeout=20, poison=None):
     env = dict(os.environ)
+    if poison is not None:
+        env['VF_POISON'] = '%x' % poison; env['MALLOC_PERTURB_'] = str(poison ^ 0xff)
     env.pop('VF_REPLAY', None)
     if valfile: env['VF_REPLAY'] = valfile
     if seed is not None: env['VF_SEED'] = str(seed)
@@ -292,8 +296,12 @@ def confirm(q, res, vals):
     write_values(valfile, vals)
     out = dict(kind=kind, confirmed=False, detail='')
     if kind == 'assertion':
-        r = run_native(native_exe(q), valfile)
-        m = re.search(r'VF-ASSERT-FAIL: (.*)', r['out'])
+        # uninitialised stack/heap bytes have arbitrary values in CBMC; natively they are whatever
+        # happens to be there, so the replay is tried with several fill patterns
+        for poison in (None, 0xA5, 0x00, 0xFF, 0x5A):
+            r = run_native(native_exe(q), valfile, poison=poison)
+            m = re.search(r'VF-ASSERT-FAIL: (.*)', r['out'])
+            if m: break
         if m and (sanitize_msg(m.group(1).strip()) == sanitize_msg(res['description'].strip())
                   or sanitize_msg(m.group(1).strip()) in getattr(q, 'failed_descs', ())):
             # the native run stops at the first failing assertion; any assertion CBMC also reports as failing counts
@@ -354,11 +362,17 @@ def do_query(q, tier, seed, validate=True):
         rec.update(vccs=c['vccs'], sat=c['sat'], steps=c['steps'], solver_s=c['solver_s'], symex_s=c['symex_s'])
         results = c['results']
         rec['properties_checked'] = len(results)
-        fails = [r for r in results if r.get('status') not in ('SUCCESS',)]
+        fails = [r for r in results if r.get('status') not in ('SUCCESS',) and not (r.get('description') or '').startswith('VF-KEEP')]
         wit = [r for r in results if classify(r, q.ob) == 'witness']
         wvals = None
         if not wit:
             rec['reason'] = 'harness has no VF-WITNESS assertion'; return rec
+        for r in fails:
+            k = classify(r, q.ob)
+            if k == 'outside' and r.get('status') == 'FAILURE':
+                rec['reason'] = 'bound exceeded: ' + r.get('description', '')[:200]; return rec
+            if k == 'unwind' and r.get('status') == 'FAILURE' and not q.ob.get('unwind_is_oracle'):
+                rec['reason'] = 'unwinding bound too small: ' + r.get('property', ''); return rec
         if all(w.get('status') == 'FAILURE' for w in wit):
             rec['witness'] = True
             wvals = nondet_values(wit[0].get('trace'))
